@@ -37,6 +37,9 @@ KIND = {"none": "pass", "assert": "assert", "testing": "runtime", "other": "runt
 
 
 def parse_api(rep):
+    """-> (cases, counter, exit) | "abort" (Tester.Run returned an error) | None"""
+    if rep is not None and rep.startswith("runerr"):
+        return "abort"
     if rep is None or not rep.startswith("ok"):
         return None
     xs = U.parse_sexps(rep[2:])
@@ -44,28 +47,32 @@ def parse_api(rep):
     counter = None
     for x in xs[:-1]:
         if x[0] == "case":
-            logs = [LOGSUFFIX.sub("", bytes.fromhex(q[1]).decode("utf-8", "replace")) for q in x[5][1:]]
-            cases.append((bytes.fromhex(x[1][1]).decode(), x[2], x[3] == "1", KIND[x[4]], logs))
+            logs = [LOGSUFFIX.sub("", bytes.fromhex(q[1]).decode("utf-8", "replace")) for q in x[6][1:]]
+            grp = bytes.fromhex(x[1][1]).decode() or None
+            cases.append((grp, bytes.fromhex(x[2][1]).decode(), x[3], x[4] == "1", KIND[x[5]], logs))
         elif x[0] == "counter":
             counter = tuple(int(v) for v in x[1:5])
     return cases, counter, int(xs[-1])
 
 
 def parse_model(rep, suite, order):
+    if rep.startswith("abort"):
+        return "abort"
     xs = U.parse_sexps(rep)
-    scopes = []
-    for ti in order:
-        scopes += [s.upper() for s in suite.tests[ti]["scopes"]]
-    scopes += ["RECV", "RECV"]            # the two mock targets of the test file are tests themselves
     cases = []
-    for x, sc in zip(xs[0][1:], scopes):
-        cases.append(("T%s" % x[1], sc, x[2] == "1", x[3], [T.Suite.log_text(int(m)) for m in x[4][1:]]))
+    for x in xs[0][1:]:
+        cases.append((None if x[1] == "_" else "G%s" % x[1], "T%s" % x[2], T.SCOPES[int(x[3])].upper(), x[4] == "1", x[5],
+                      [T.Suite.log_text(int(m)) for m in x[6][1:]]))
     return cases, tuple(int(v) for v in xs[1][1:5]), int(xs[2])
 
 
 def sim_expected(suite, order):
-    cases, counter, ex = T.simulate(suite, order)
-    return ([("T%d" % n, sc.upper(), sk, v, [T.Suite.log_text(m) for m in lg]) for n, sc, sk, v, lg in cases], counter, ex)
+    r = T.simulate(suite, order)
+    if r is None:
+        return "abort"
+    cases, counter, ex = r
+    return ([(None if g is None else "G%d" % g, "T%d" % n, sc.upper(), sk, v, [T.Suite.log_text(m) for m in lg])
+             for g, n, sc, sk, v, lg in cases], counter, ex)
 
 
 def orders_for(rng, n, thorough):
@@ -91,9 +98,10 @@ def orders_for(rng, n, thorough):
 
 
 def by_test(cases):
+    """the cases of each UNIT of the independence claim: an ungrouped test, or a whole describe group"""
     d = {}
     for c in cases:
-        d.setdefault(c[0], []).append(c[1:])
+        d.setdefault(("group " + c[0]) if c[0] else ("test " + c[1]), []).append(c[1:])
     return d
 
 
@@ -118,13 +126,13 @@ def parse_cli_json(out):
         for c in t.get("suites") or []:
             err = c.get("error")
             logs = [LOGSUFFIX.sub("", l) for l in (c.get("logs") or [])]
-            cases.append((c["name"], c["scope"], bool(c["skip"]), "fail" if err else "pass", logs))
+            cases.append((c.get("group") or None, c["name"], c["scope"], bool(c["skip"]), "fail" if err else "pass", logs))
     s = j["summary"]
     return cases, (s["asserts"], s["passes"], s["fails"], s["skips"])
 
 
 def coarse(cases):
-    return [(n, sc, sk, "pass" if v == "pass" else "fail", lg) for n, sc, sk, v, lg in cases]
+    return [(g, n, sc, sk, "pass" if v == "pass" else "fail", lg) for g, n, sc, sk, v, lg in cases]
 
 
 def run(ctx):
@@ -156,6 +164,7 @@ def run(ctx):
 
     # ------------------------------------------------------------------ known finding: corpus
     n_corpus = corpus_known(ctx, falco, work)
+    n_cache_facts = cache_is_per_interpreter(ctx)
 
     # ------------------------------------------------------------------ suites
     n_suites = 500 if thorough else 40
@@ -174,11 +183,17 @@ def run(ctx):
         suites.append(g.resource_suite(x))
     for _ in range(400 if thorough else 24):
         suites.append(g.stateful_suite())
+    n_before_groups = len(suites)
+    for _ in range(400 if thorough else 30):
+        suites.append(g.grouped_suite())
+    group_scope_check(ctx, impl)
 
     reqs, mreqs, meta = [], [], []
     for si, s in enumerate(suites):
         main = s.main_vcl().encode().hex()
-        for order in orders_for(rng, len(s.tests), thorough):
+        its = s.items()
+        for oi in orders_for(rng, len(its), thorough):
+            order = [its[k] for k in oi]
             tv = s.test_vcl(order).encode().hex()
             for cov in (0, 1):
                 reqs.append("%d %s %s" % (cov, main, tv))
@@ -190,16 +205,18 @@ def run(ctx):
     agree = 0
     nontrivial = set()
     verdicts = {"pass": 0, "assert": 0, "runtime": 0, "skip": 0}
-    ref = {}            # (suite, test name) -> cases of that test in the first run (order / coverage independence)
+    n_abort = 0
+    ref = {}            # (suite, unit) -> cases of that test in the first run (order / coverage independence)
     n_cases = 0
     for (si, order, cov), ir, mr in zip(meta, ireps, mreps):
         s = suites[si]
+        its = s.items()
         replay = {"main.vcl": s.main_vcl(), "main.test.vcl": s.test_vcl(order), "coverage": bool(cov), "order": order}
         api = parse_api(ir)
         if api is None:
             ctx.violation("test runner did not complete on a generated suite: %s" % (ir or "no reply")[:200], replay)
             continue
-        if mr is None or not mr.startswith("(cases"):
+        if mr is None or not mr.startswith(("(cases", "abort")):
             ctx.violation("model driver failed: %s" % (mr or "")[:200], dict(replay, model_request=mreqs[0][:100]))
             continue
         mod = parse_model(mr, s, order)
@@ -207,13 +224,23 @@ def run(ctx):
         if mod != sim:
             ctx.violation("Coq model and the generator's evaluator disagree (model %s / generator %s)" % (str(mod)[:300], str(sim)[:300]), replay)
             continue
+        if api == "abort" or mod == "abort":
+            if api != mod:
+                ctx.violation("a raising hook: test runner says %s, model says %s" % (str(api)[:200], str(mod)[:200]), replay)
+            else:
+                agree += 1
+                n_abort += 1
+            continue
         cases, counter, ex = api
         n_cases += len(cases)
         # ---- direct oracle on the implementation
-        npass = sum(1 for c in cases if not c[2] and c[3] == "pass")
-        nfail = sum(1 for c in cases if not c[2] and c[3] != "pass")
-        nskip = sum(1 for c in cases if c[2])
-        want_cases = sum(len(s.tests[ti]["scopes"]) for ti in order) + 2
+        npass = sum(1 for c in cases if not c[3] and c[4] == "pass")
+        nfail = sum(1 for c in cases if not c[3] and c[4] != "pass")
+        nskip = sum(1 for c in cases if c[3])
+        want_cases = 2
+        for kind, i in order:
+            for ti in ([i] if kind == "t" else s.groups[i]["tests"]):
+                want_cases += len(s.tests[ti]["scopes"])
         if npass + nfail + nskip != len(cases) or len(cases) != want_cases:
             ctx.violation("passed + failed + skipped = %d + %d + %d but %d (test, scope) pairs were to be run" % (npass, nfail, nskip, want_cases), replay)
         if (ex != 0) != (nfail > 0):
@@ -225,7 +252,7 @@ def run(ctx):
             if key not in ref:
                 ref[key] = (cs, replay)
             elif ref[key][0] != cs:
-                ctx.violation("the cases of test %s depend on order / subset / coverage: %s vs %s" % (name, str(ref[key][0])[:300], str(cs)[:300]),
+                ctx.violation("the cases of %s depend on order / subset / coverage: %s vs %s" % (name, str(ref[key][0])[:300], str(cs)[:300]),
                               dict(replay, other=ref[key][1]))
         # ---- against the model
         if (cases, counter, ex) != mod:
@@ -235,15 +262,15 @@ def run(ctx):
         else:
             agree += 1
             nontrivial.add((replay["main.vcl"], replay["main.test.vcl"], cov))
-            if order == list(range(len(s.tests))) and cov == 0:
+            if order == its and cov == 0:
                 for c in cases:
-                    verdicts["skip" if c[2] else c[3]] += 1
+                    verdicts["skip" if c[3] else c[4]] += 1
 
     # ------------------------------------------------------------------ the real process
     n_cli = 0
     cli_suites = suites if thorough else suites[:14] + suites[-5:]
     for si, s in enumerate(cli_suites):
-        order = list(range(len(s.tests)))
+        order = s.items()
         if si % 2:
             rng.shuffle(order)
         mainv, testv = s.main_vcl(), s.test_vcl(order)
@@ -253,6 +280,10 @@ def run(ctx):
             n_cli += 1
             replay = {"main.vcl": mainv, "main.test.vcl": testv, "coverage": bool(cov), "cmd": "falco test -json%s main.vcl" % (" --coverage" if cov else "")}
             pj = parse_cli_json(out)
+            if sim == "abort":
+                if pj is not None or rc == 0:
+                    ctx.violation("a hook raises: falco test should fail without a report, got exit %d" % rc, dict(replay, stdout=out[:1000]))
+                continue
             if pj is None:
                 ctx.violation("falco test -json printed no JSON (exit %d): %s" % (rc, (out + err)[:300]), replay)
                 continue
@@ -260,13 +291,13 @@ def run(ctx):
             if cases != coarse(sim[0]) or counter != sim[1] or rc != sim[2]:
                 ctx.violation("falco test -json differs from the expected report: exit %d (expected %d), summary %s (expected %s), suites %s" % (
                     rc, sim[2], counter, sim[1], "equal" if cases == coarse(sim[0]) else "differ"), dict(replay, stdout=out[:3000]))
-        if si % 3 == 0:
+        if si % 3 == 0 and sim != "abort":
             rc, out, err = cli_run(falco, os.path.join(work, "cli"), mainv, testv, 0, as_json=False)
             n_cli += 1
             m = re.search(r"(\d+) passed, (\d+) failed, (\d+) skipped, (\d+) total, (\d+) assertions", re.sub(r"\x1b\[[0-9;]*m", "", out + err))
             exp = sim[0]
-            want = (sum(1 for c in exp if not c[2] and c[3] == "pass"), sum(1 for c in exp if not c[2] and c[3] != "pass"),
-                    sum(1 for c in exp if c[2]), len(exp), sim[1][0])
+            want = (sum(1 for c in exp if not c[3] and c[4] == "pass"), sum(1 for c in exp if not c[3] and c[4] != "pass"),
+                    sum(1 for c in exp if c[3]), len(exp), sim[1][0])
             got = tuple(int(x) for x in m.groups()) if m else None
             if got != want or rc != sim[2]:
                 ctx.violation("text report says %s (exit %d), expected %s (exit %d)" % (got, rc, want, sim[2]),
@@ -278,7 +309,7 @@ def run(ctx):
                       {"no_failing_input": True, "broken": ctx.broken,
                        "searched": "%d runs of the test runner agree with the model; no order / coverage dependence" % len(reqs)})
     s0 = suites[0]
-    ctx.samples = [{"main.vcl": s0.main_vcl()[:1200], "main.test.vcl": s0.test_vcl(list(range(len(s0.tests))))[:1200]}]
+    ctx.samples = [{"main.vcl": s0.main_vcl()[:1200], "main.test.vcl": s0.test_vcl(s0.items())[:1200]}]
     ctx.coverage.update({
         "evaluations": len(reqs) + n_cli,
         "distinct_nontrivial": len(nontrivial),
@@ -286,9 +317,14 @@ def run(ctx):
         "process_runs": n_cli, "corpus_known_cases": n_corpus,
         "orders_per_suite": {"<=5 tests": "every order (quick: 41 of 120 for 5 tests) + subsets", ">5 tests": "31 random orders / subsets"},
         "verdicts_in_first_order": verdicts,
-        "dimension_counts": {"suites_without_helpers": n_plain, "resource_suites (one per helper, all mutator pairs)": len(T.RES),
-                             "stateful_suites": len(suites) - n_plain - len(T.RES),
-                             "api_runs_on_helper_suites": sum(1 for (si, _, _) in meta if si >= n_plain),
+        "cache_shape_facts_checked": n_cache_facts,
+        "dimension_counts": {"suites_with_describe_groups_and_hooks": len(suites) - n_before_groups,
+                             "api_runs_on_grouped_suites": sum(1 for (si, _, _) in meta if si >= n_before_groups),
+                             "runs_aborted_by_a_raising_hook (runner and model agree)": n_abort,
+                             "group_stats": {k: v for k, v in sorted(g.stats.items()) if k.startswith("group")},
+                             "suites_without_helpers": n_plain, "resource_suites (one per helper, all mutator pairs)": len(T.RES),
+                             "stateful_suites": n_before_groups - n_plain - len(T.RES),
+                             "api_runs_on_helper_suites": sum(1 for (si, _, _) in meta if n_plain <= si < n_before_groups),
                              "helper_steps": {k: v for k, v in sorted(g.stats.items()) if k.startswith(("helper:", "observe", "resource-suite:"))}},
         "generator_stats": dict(sorted(g.stats.items())),
     })
@@ -297,6 +333,68 @@ def run(ctx):
         rule="theorems of coq/Props/C10.v (unbounded: any number of tests, scopes, steps; any program of the small language); "
              "correspondence: seeded suites x orders/subsets x {coverage off, on} through the Go API, a sample through the real "
              "process (JSON and text); distinct = distinct (main VCL, test file, coverage) on which runner and model agree")
+
+
+def group_scope_check(ctx, impl):
+    """C10_group_order_dependent_refuted on the real runner: inside ONE describe group the verdict of
+    `assert.is_notset(req.http.f0)` depends on whether `set req.http.f0` ran before it; ungrouped it does not"""
+    s = T.Suite()
+    s.subs.append((0, [("log", 1, [])]))
+    s.tests.append({"name": 0, "scopes": ["recv"], "skip": False, "steps": [("set", 0)], "expect": "pass"})
+    s.tests.append({"name": 1, "scopes": ["recv"], "skip": False, "steps": [("af", 0, False)], "expect": "pass"})
+    res = {}
+    for label, groups, order in (("grouped a,b", [[0, 1]], None), ("grouped b,a", [[1, 0]], None),
+                                 ("ungrouped a,b", [], [("t", 0), ("t", 1)]), ("ungrouped b,a", [], [("t", 1), ("t", 0)])):
+        s.groups = [{"name": 7, "before": {}, "after": {}, "tests": ts} for ts in groups]
+        o = order or s.items()
+        rep = V.run_batch(impl, ["0 %s %s" % (s.main_vcl().encode().hex(), s.test_vcl(o).encode().hex())], hang_s=30)[0]
+        api = parse_api(rep)
+        res[label] = None if api in (None, "abort") else next((c[4] for c in api[0] if c[1] == "T1"), None)
+    want = {"grouped a,b": "assert", "grouped b,a": "pass", "ungrouped a,b": "pass", "ungrouped b,a": "pass"}
+    if res != want:
+        ctx.violation("scope of the independence claim: verdict of the observing test is %s, the model says %s" % (res, want),
+                      {"main.vcl": s.main_vcl(), "note": "tests inside one describe group share the interpreter; ungrouped tests do not"})
+
+
+def cache_is_per_interpreter(ctx):
+    """Cache state across tests.  The simulator's object cache is a field of the Interpreter
+    (`cache: cache.New()` in interpreter.New), package interpreter/cache has no package-level variable, the
+    test runner builds a new Interpreter for every ungrouped test subroutine (setupInterpreter ->
+    interpreter.New) and the cache is only read / written on the request path (ProcessRequest), which test
+    subroutines never run.  Checked on the sources of the working tree on every run (shape facts)."""
+    def src(rel):
+        with open(os.path.join(V.REPO, rel)) as f:
+            return f.read()
+    facts = []
+    new = re.search(r"func New\(options \.\.\.context\.Option\) \*Interpreter \{(.*?)\n\}", src("interpreter/interpreter.go"), re.S)
+    facts.append(("interpreter.New gives every Interpreter its own cache.New()", bool(new and re.search(r"cache:\s+cache\.New\(\)", new.group(1)))))
+    cache_src = src("interpreter/cache/cache.go")
+    # (a read-only table such as `var unCacheableStatusCodes = []int{...}` is not state)
+    stateful = [l for l in re.findall(r"^var\s[^\n]*", cache_src, re.M) if re.search(r"map\[|sync\.|\*|Cache\b|\bchan\b", l)]
+    facts.append(("package interpreter/cache declares no package-level map / pointer / sync / Cache variable", not stateful))
+    facts.append(("cache.New returns a fresh struct", bool(re.search(r"func New\(\) \*Cache \{\s*return &Cache\{\}", cache_src))))
+    tester_src = src("tester/tester.go")
+    m = re.search(r"func \(t \*Tester\) setupInterpreter\(.*?\n\}", tester_src, re.S)
+    facts.append(("setupInterpreter builds a new Interpreter", bool(m and "interpreter.New(" in m.group(0))))
+    users = []
+    for root, _, files in os.walk(os.path.join(V.REPO, "interpreter")):
+        for fn in files:
+            if fn.endswith(".go") and not fn.endswith("_test.go") and not fn.startswith("verif_"):
+                p = os.path.join(root, fn)
+                if re.search(r"\bi\.cache\.(Get|Set)\(", open(p).read()):
+                    users.append(os.path.relpath(p, V.REPO))
+    facts.append(("the cache is read / written only in interpreter/interpreter.go (request path)", users == ["interpreter/interpreter.go"]))
+    facts.append(("the test runner and the testing.* functions never touch the cache",
+                  not re.search(r"\.cache\b|VerifCache", tester_src) and
+                  not any(re.search(r"cache\.", open(os.path.join(V.REPO, "tester/function", fn)).read())
+                          for fn in os.listdir(os.path.join(V.REPO, "tester/function")) if fn.endswith(".go") and not fn.endswith("_test.go") and fn != "coverage.go")))
+    for name, ok in facts:
+        ctx.obligation("shape fact (cache state across tests): " + name, ok)
+    bad = [n for n, ok in facts if not ok]
+    if bad:
+        ctx.violation("the object cache may no longer be fresh per test: " + "; ".join(bad),
+                      {"no_failing_input": True, "broken": "shape facts on interpreter.New / interpreter/cache / tester.go", "facts": bad})
+    return len(facts)
 
 
 def fixed_suite(g, expects, skips):
